@@ -98,6 +98,12 @@ def configs(tier):
         for ss in segs:
             for reqs in ([(rq(2), 0)], [(0, rs(2))]):
                 add(d_big, c={"seg": sc}, s={"seg": ss}, reqs=reqs, label="segsup")
+    # the same through the IOCB queue, with a small request queued behind (outcomes produced synchronously inside the
+    # submission - local aborts - must reach the IOCB and free the queue), peer known from a record or unknown
+    for sc in segs:
+        for ss in segs:
+            for peerinfo in (False, "record"):
+                add(1, c={"seg": sc}, s={"seg": ss}, reqs=[(rq(2), 0), (0, 0)], via="iocb", peerinfo=peerinfo, label="segsup-iocb")
     # answer modes and other reply kinds
     add(d_small, reqs=[(0, 0)], answer="hold", label="hold")
     add(d_big, reqs=[(0, rs(3))], answer="hold", label="hold-segresp")
@@ -158,6 +164,7 @@ def judge(sysm, terminal=True):
     O.judge_payloads(sysm, got, problems)
     O.judge_late_frames(sysm, got, problems)
     O.judge_retransmissions(sysm, problems)
+    O.judge_stale_timers(sysm, problems)
     nreq = max(O.seg_count(r[0] + OVERHEAD, cfg.c["maxapdu"] - 6) for r in cfg.reqs)
     nresp = max(O.seg_count(r[1] + OVERHEAD, min(cfg.c["maxapdu"], cfg.s["maxapdu"]) - 5) for r in cfg.reqs)
     if terminal:
